@@ -520,3 +520,29 @@ class Gen:
         if c is None or len(self.w.order) > 400:
             return None
         return {"op": "clone", "on": c[0]}
+
+    # -- third-party listeners (C19) ------------------------------------------------------
+    def f_listener(self):
+        ls = getattr(self.w, "listeners", {})
+        from .listeners import ShadowListener, HOOKS
+        shadows = [k for k, v in ls.items() if isinstance(v, ShadowListener)]
+        nid = self.cfg.setdefault("_lid", 0)
+        if not shadows:
+            self.cfg["_lid"] = nid + 1
+            return {"op": "listener_add", "kind": "shadow", "id": nid}
+        x = self.r.random()
+        if x < 0.3 and ls:
+            return {"op": "listener_remove", "id": self.r.choice(sorted(ls))}
+        if len(ls) >= 6:
+            return None
+        self.cfg["_lid"] = nid + 1
+        kinds = [("shadow", 2 if len(shadows) < 3 else 0), ("passive", 1), ("gc_inside", 1),
+                 ("veto", 2 if self.cfg.get("veto") else 0)]
+        kind = weighted(self.r, kinds)
+        ev = {"op": "listener_add", "kind": kind, "id": nid}
+        if kind == "gc_inside":
+            ev["every"] = self.r.choice([1, 3, 7, 20])
+        if kind == "veto":
+            ev["hook"] = self.r.choice([h for h in HOOKS if not h.startswith("create_")])
+            ev["at"] = self.r.randint(1, 4)
+        return ev
